@@ -236,6 +236,8 @@ def c20_jobs(tier):
             jobs.append(job(ROOT, "HProtectFrame", [s, role, 0, 33, 48, 0]))
     for v in (0, 1):
         jobs.append(job(MSG, "HEncodeSharedContainers", [v]))
+    for meth, mask in ((1, 0), (2, 0), (3, 0), (254, 0), (50, 0), (50, 1 | 4 | 32)):
+        jobs.append(job(EAP, "HEapEncodePureAnyCode", [meth, mask]))
     # a decoded EAP-AKA' packet extended through the API: same octets under every map order
     for r, a1, a2 in ((0, 2, 4), (3, 6, 1), (5, 4, 2)):
         jobs.append(job(EAP, "HMarshalDeterministicDecoded", [r, a1, a2], map_orders=True))
